@@ -49,17 +49,17 @@ macro_rules! cut {
 }
 
 // the ε-copy path may panic on truncated input (documented): slice bounds checks only
-// @h cut_opt_u32 props=C11 tier=quick kind=complete vars="v:Option<u32>, every cut k<len" allow="out of range for slice|index out of bounds|slice index starts at|called `Result::unwrap\(\)` on an `Err` value" fns="impls/prim.rs:Option,deser/slice_with_pos.rs"
+// @h cut_opt_u32 props=C11 tier=quick kind=complete vars="v:Option<u32>, every cut k<len" allow="core::slice::index::slice_index_fail|index out of bounds|called `Result::unwrap\(\)` on an `Err` value" fns="impls/prim.rs:Option,deser/slice_with_pos.rs"
 cut!(cut_opt_u32, Option<u32>, 0, 32, 9);
-// @h cut_e1 props=C11,C05 tier=quick kind=complete vars="v:E1, every cut k<len" allow="out of range for slice|index out of bounds|slice index starts at|called `Result::unwrap\(\)` on an `Err` value" fns="derive:E1"
+// @h cut_e1 props=C11,C05 tier=quick kind=complete vars="v:E1, every cut k<len" allow="core::slice::index::slice_index_fail|index out of bounds|called `Result::unwrap\(\)` on an `Err` value" fns="derive:E1"
 cut!(cut_e1, E1, 0, 32, 17);
-// @h cut_vec_u16 props=C11 tier=quick kind=bounded bound="len<=2" vars="v:Vec<u16>, every cut k<len" allow="out of range for slice|index out of bounds|slice index starts at|called `Result::unwrap\(\)` on an `Err` value" fns="deser/helpers.rs:deserialize_eps_slice_zero,deser/helpers.rs:deserialize_full_vec_zero"
+// @h cut_vec_u16 props=C11 tier=quick kind=bounded bound="len<=2" vars="v:Vec<u16>, every cut k<len" allow="core::slice::index::slice_index_fail|index out of bounds|called `Result::unwrap\(\)` on an `Err` value" fns="deser/helpers.rs:deserialize_eps_slice_zero,deser/helpers.rs:deserialize_full_vec_zero"
 cut!(cut_vec_u16, Vec<u16>, 2, 32, 17);
-// @h cut_z8 props=C11,C05 tier=quick kind=complete vars="v:Z8, every cut k<len" allow="out of range for slice|index out of bounds|slice index starts at|called `Result::unwrap\(\)` on an `Err` value" fns="deser/helpers.rs:deserialize_eps_zero,deser/helpers.rs:deserialize_full_zero"
+// @h cut_z8 props=C11,C05 tier=quick kind=complete vars="v:Z8, every cut k<len" allow="core::slice::index::slice_index_fail|index out of bounds|called `Result::unwrap\(\)` on an `Err` value" fns="deser/helpers.rs:deserialize_eps_zero,deser/helpers.rs:deserialize_full_zero"
 cut!(cut_z8, Z8, 0, 32, 17);
-// @h cut_vec_opt_u8 props=C11 tier=thorough kind=bounded bound="len<=2" vars="v:Vec<Option<u8>>, every cut k<len" allow="out of range for slice|index out of bounds|slice index starts at|called `Result::unwrap\(\)` on an `Err` value" fns="deser/helpers.rs:deserialize_eps_vec_deep,deser/helpers.rs:deserialize_full_vec_deep"
+// @h cut_vec_opt_u8 props=C11 tier=thorough kind=bounded bound="len<=2" vars="v:Vec<Option<u8>>, every cut k<len" allow="core::slice::index::slice_index_fail|index out of bounds|called `Result::unwrap\(\)` on an `Err` value" fns="deser/helpers.rs:deserialize_eps_vec_deep,deser/helpers.rs:deserialize_full_vec_deep"
 cut!(cut_vec_opt_u8, Vec<Option<u8>>, 2, 32, 17);
-// @h cut_string props=C11 tier=thorough kind=bounded bound="len<=2 ASCII" vars="v:String, every cut k<len" allow="out of range for slice|index out of bounds|slice index starts at|called `Result::unwrap\(\)` on an `Err` value" fns="impls/string.rs"
+// @h cut_string props=C11 tier=thorough kind=bounded bound="len<=2 ASCII" vars="v:String, every cut k<len" allow="core::slice::index::slice_index_fail|index out of bounds|called `Result::unwrap\(\)` on an `Err` value" fns="impls/string.rs"
 cut!(cut_string, String, 2, 32, 17);
-// @h cut_d2 props=C11,C05 tier=thorough kind=complete vars="v:D2, every cut k<len" allow="out of range for slice|index out of bounds|slice index starts at|called `Result::unwrap\(\)` on an `Err` value" fns="derive:D2"
+// @h cut_d2 props=C11,C05 tier=thorough kind=complete vars="v:D2, every cut k<len" allow="core::slice::index::slice_index_fail|index out of bounds|called `Result::unwrap\(\)` on an `Err` value" fns="derive:D2"
 cut!(cut_d2, D2, 0, 64, 17);
